@@ -233,6 +233,9 @@ func genModuleG(seed uint64, stream string, fault, dup int) (string, *modGen) {
 	for _, i := range forder {
 		g.genFunc(i, nF, nG, nT, nblocks, fname, gname, tname, md, unnamedGlobal, nAttr)
 	}
+	// ---- a function with the remaining label use sites of the grammar: catchswitch handlers and unwind target,
+	//      catchret target, cleanupret unwind target, callbr normal and other targets
+	g.genEHFunc()
 	// ---- blockaddress constants outside function bodies: in a module-level use-list order directive and
 	//      inside a numbered metadata definition (both are translated after the function bodies)
 	if r.chance(70) {
@@ -374,6 +377,43 @@ func (g *modGen) genFunc(i, nF, nG, nT int, nblocks []int, fname, gname, tname f
 	emit("lp:")
 	emit("\t%%l = landingpad { i8*, i32 } cleanup")
 	emit("\tret i32 %s", g.use("local", fmt.Sprintf("%%v%d", nb-1), "return value"))
+	emit("}")
+	if dupF {
+		g.b.WriteString(body.String())
+	}
+	g.b.WriteString(body.String())
+}
+
+func (g *modGen) genEHFunc() {
+	name := "@ehf"
+	dupF := g.def("global", name)
+	g.begin("global", name, "plain", dupF)
+	g.cur.blocks = append(g.cur.blocks, "%entry", "%cs", "%h1", "%h2", "%cl", "%cl2", "%done", "%fall", "%other")
+	var body strings.Builder
+	emit := func(format string, a ...interface{}) { fmt.Fprintf(&body, format+"\n", a...) }
+	emit("define void %s(i32 %%a) personality i32 (...)* %s {", name, g.use("global", "@pers", "personality"))
+	emit("entry:")
+	emit("\tinvoke i32 %s(i32 %s) to label %s unwind label %s", g.use("global", "@ext", "invokee"), g.use("local", "%a", "invoke arg"), g.use("label", "%done", "invoke normal"), g.use("label", "%cs", "invoke unwind"))
+	emit("cs:")
+	emit("\t%%sw = catchswitch within none [label %s, label %s] unwind label %s", g.use("label", "%h1", "catchswitch handler"), g.use("label", "%h2", "catchswitch handler"), g.use("label", "%cl", "catchswitch unwind"))
+	emit("h1:")
+	emit("\t%%cp1 = catchpad within %s [i32 %s]", g.use("local", "%sw", "catchpad catchswitch"), g.use("local", "%a", "catchpad arg"))
+	emit("\tcatchret from %s to label %s", g.use("local", "%cp1", "catchret pad"), g.use("label", "%done", "catchret target"))
+	emit("h2:")
+	emit("\t%%cp2 = catchpad within %s []", g.use("local", "%sw", "catchpad catchswitch"))
+	emit("\tcatchret from %s to label %s", g.use("local", "%cp2", "catchret pad"), g.use("label", "%done", "catchret target"))
+	emit("cl:")
+	emit("\t%%pad = cleanuppad within none [i32 %s]", g.use("local", "%a", "cleanuppad arg"))
+	emit("\tcleanupret from %s unwind label %s", g.use("local", "%pad", "cleanupret pad"), g.use("label", "%cl2", "cleanupret unwind"))
+	emit("cl2:")
+	emit("\t%%pad2 = cleanuppad within %s []", g.use("local", "%pad", "cleanuppad parent"))
+	emit("\tcleanupret from %s unwind to caller", g.use("local", "%pad2", "cleanupret pad"))
+	emit("done:")
+	emit("\t%%cb = callbr i32 %s(i32 %s) to label %s [label %s]", g.use("global", "@ext", "callbr callee"), g.use("local", "%a", "callbr arg"), g.use("label", "%fall", "callbr normal"), g.use("label", "%other", "callbr other"))
+	emit("fall:")
+	emit("\tret void")
+	emit("other:")
+	emit("\tret void")
 	emit("}")
 	if dupF {
 		g.b.WriteString(body.String())
